@@ -29,6 +29,7 @@ import hashlib
 import os
 import shutil
 import tempfile
+import zlib
 from collections import OrderedDict
 from pathlib import Path, PurePath
 
@@ -217,7 +218,7 @@ def _payload(payload, d, seed, salt):
     if payload == "generic":
         p = 0.5 + 5.0 * L.rs(seed, "c16", salt, d).rand(N, d)
     elif payload == "special":
-        off = L.stable_hash(salt) if hasattr(L, "stable_hash") else sum(ord(c) for c in repr(salt))
+        off = zlib.crc32(repr(salt).encode("utf8"))
         p = np.array([[SPECIAL[(off + i * d + j) % len(SPECIAL)] for j in range(d)] for i in range(N)], dtype=float)
     elif payload == "pixel":  # integer valued floats (json writes them as 12.0)
         p = np.floor(300 * L.rs(seed, "c16px", salt, d).rand(N, d)) - 20.0
@@ -540,12 +541,12 @@ def model_letter(name, seed):
         return GMRFModel(shapes, g, n_components=None, sparse=False, dtype=np.float64)
     if name == "GMRFVectorModel":
         return GMRFVectorModel(np.array([s.as_vector() for s in shapes]), g)
-    if name == "GMRFVectorModel-edgeless":
-        return GMRFVectorModel(np.array([s.as_vector() for s in shapes]), None, mode="subtraction", n_components=3)
+    if name == "GMRFVectorModel-subtraction":
+        return GMRFVectorModel(np.array([s.as_vector() for s in shapes]), g, mode="subtraction", n_components=2, incremental=True)
     raise ValueError(name)
 
 
-MODEL_LETTERS = ["PCAModel", "PCAModel-trimmed", "PCAVectorModel", "PCAVectorModel-uncentred", "GMRFModel", "GMRFModel-dense", "GMRFVectorModel", "GMRFVectorModel-edgeless"]
+MODEL_LETTERS = ["PCAModel", "PCAModel-trimmed", "PCAVectorModel", "PCAVectorModel-uncentred", "GMRFModel", "GMRFModel-dense", "GMRFVectorModel", "GMRFVectorModel-subtraction"]
 CONTAINER_LETTERS = ["list2", "dict2", "ordered3", "manager", "nested", "tuple2"]
 
 
@@ -587,11 +588,6 @@ def pkl_object(root, seed):
     if kind == "container":
         return container_letter(root[2], seed)
     raise ValueError(root)
-
-
-def my_observe(o):
-    """mc.observe.observe, with tuples/dicts of objects handled and LandmarkManager order kept."""
-    return observe(o)
 
 
 # ------------------------------------------------------------------------------------------------
@@ -862,28 +858,29 @@ class C16(Check):
         return []
 
     # ------------------------------------------------------------------ alphabet
-    def _rt_ops(self, exts, level, protos=(None,)):
-        """round-trip letters: (ext, spelling, name kind, protocol)."""
-        quick = self.tier == "quick"
+    def _rt_ops(self, exts, level, fifth=(None,)):
+        """round-trip letters: ("rt", extension, path spelling, file-name kind, protocol / normalise flag).
+        thorough level 0: the full product; otherwise every spelling once per extension (two extensions)
+        or with a rotating extension (many), every extension at least once."""
+        nks = list(NAMEKINDS)
         out = []
-        if quick or level >= 1:
-            nks = list(NAMEKINDS)
-            i = 0
-            for sp_ in PLAIN_SP:
-                for ext in exts if len(exts) <= 2 else [exts[(PLAIN_SP.index(sp_) + level) % len(exts)]]:
-                    out.append(("rt", ext, sp_, nks[i % (2 if quick else 3)], protos[i % len(protos)]))
-                    i += 1
-            if len(exts) > 2:  # every extension at least once
-                seen = set(o[1] for o in out)
-                for j, ext in enumerate(exts):
-                    if ext not in seen:
-                        out.append(("rt", ext, PLAIN_SP[j % len(PLAIN_SP)], nks[j % 2], protos[0]))
+        i = 0
+        if self.tier == "thorough" and level == 0:
+            for ext in exts:
+                for sp_ in PLAIN_SP:
+                    for nk in nks:
+                        out.append(("rt", ext, sp_, nk, fifth[(i + i // len(nks)) % len(fifth)]))
+                        i += 1
             return out
-        for ext in exts:
-            for sp_ in PLAIN_SP:
-                for nk in NAMEKINDS:
-                    for pr in protos:
-                        out.append(("rt", ext, sp_, nk, pr))
+        n_nk = 2 if self.tier == "quick" else 3
+        for si, sp_ in enumerate(PLAIN_SP):
+            for ext in exts if len(exts) <= 2 else [exts[(si + level) % len(exts)]]:
+                out.append(("rt", ext, sp_, nks[i % n_nk], fifth[(i // 2) % len(fifth)]))
+                i += 1
+        seen = set(o[1] for o in out)
+        for j, ext in enumerate(exts):
+            if ext not in seen:
+                out.append(("rt", ext, PLAIN_SP[j % len(PLAIN_SP)], nks[j % n_nk], fifth[j % len(fifth)]))
         return out
 
     def ops(self, st, level):
@@ -895,7 +892,7 @@ class C16(Check):
         if kind == "pts":
             return self._rt_ops([".pts"], level)
         if kind == "pkl":
-            return self._rt_ops([".pkl", ".pkl.gz"], level, protos=(None, 4) if self.tier == "quick" else (None, 4, 0))
+            return self._rt_ops([".pkl", ".pkl.gz"], level, (None, 4) if self.tier == "quick" else (None, 4, 0))
         if kind in ("imf", "imm"):
             root = st["root"]
             if kind == "imf" and root[2] == "RGBA" and not root[3]:
@@ -1132,8 +1129,9 @@ class C16(Check):
                     nbad = int((dec != exp).sum()) if dec.shape == exp.shape else -1
                     fails.append(Failure(where, "eight-bit-unchanged", "%s file decodes to %s%s, %d values differ from the source data %s" % (ext, dec.dtype, dec.shape, nbad, exp.shape)))
                 fails.extend(self._cmp_8bit(where, "eight-bit-unchanged", back, exp, norm))
-                if back.pixels.dtype == px_before.dtype and back.pixels.shape == px_before.shape and px_before.dtype != bool and st["gen"] > 0 or (st["kind"] == "imf" and back.pixels.dtype == px_before.dtype):
-                    if not np.array_equal(back.pixels, px_before):
+                was_import = st["kind"] == "imf" or st["gen"] > 0  # the exported image is itself an import
+                if was_import and back.pixels.dtype == px_before.dtype and px_before.dtype != bool:
+                    if back.pixels.shape != px_before.shape or not np.array_equal(back.pixels, px_before):
                         fails.append(Failure(where, "eight-bit-unchanged", "re-import differs from the import that was exported (%d values)" % int((back.pixels != px_before).sum())))
                 self.note("img8:%s" % ("ok" if not fails else "failed"))
                 self.note("img8:out%s" % ext)
@@ -1151,8 +1149,6 @@ class C16(Check):
             self.note("img:reimport-%s" % ("float" if norm else "uint8"))
             self.note("sp:%s" % sp_)
             self.note("img:gen%d" % min(st["gen"], 1))
-        if st["kind"] == "imm" and exp is None:
-            st["ref"] = None  # float data: the next level compares with the same float reference
         st["cur"] = back
         return fails
 
@@ -1275,8 +1271,6 @@ class C16(Check):
         need += ["sp:%s" % s for s in PLAIN_SP]
         need += ["img8:out.%s" % o for o in (LOSSLESS_OUT[:6] if self.tier == "quick" else LOSSLESS_OUT)]
         out = ["outcome %s never produced" % n for n in need if not notes.get(n)]
-        for bad in ("lj:failed", "pts:failed", "img8:failed", "imgf:failed"):
-            pass
         return out
 
     def rule(self):
